@@ -601,6 +601,19 @@ class Analysis:
 
     # ---- branch refinement
     def refine(self, B, si, st):
+        if B.cond is not None and B.tk == "SwitchStmt":
+            # edge switch(T) -> `case K:`: T == K there, so `avail >= k + T` gives avail >= k + K.
+            # (A case block entered by fall-through joins with the state of the block above as usual.)
+            s = B.succs[si]
+            lab = self.cfg.blocks[s].label if s in self.cfg.blocks else None
+            K = lab.c[0].cv if lab is not None and lab.k == "CaseStmt" and lab.c and lab.c[0] is not None else None
+            if K is not None and K > 0:
+                facts, idx = st
+                T = self.term(B.cond.strip_casts())
+                for pi in facts:
+                    if T in facts[pi]:
+                        facts[pi][None] = max(facts[pi].get(None, 0), facts[pi][T] + K)
+            return st
         if B.cond is None or len(B.succs) != 2:
             return st
         taken = (si == 0)
